@@ -45,6 +45,9 @@ def parse_final(tokens):
         d["rech"] = t[j + 2:j + 2 + kk]
         d["reci"] = t[j + 3 + kk] == "1"
         j = j + 4 + kk
+        if len(t) > j and t[j] == "acc":
+            d["acc"] = t[j + 1] == "1"
+            j += 2
         if len(t) > j and t[j] == "reuse":
             d["reuse"] = t[j + 1] == "1"
             if not d["reuse"]:
@@ -155,6 +158,15 @@ def run_programs(run, binary, cases, tag, oracle, relation, theorem_hint="", dea
                             "reused_classical_register": o[1].get("reuse_class")})
                 run.violation(rep)
     found += reused
+    # the simulator's accessors (probabilities, polar amplitudes) and its own measure(q, c) entry point, probed on a copy
+    bad_acc = [i for i, o in enumerate(obs) if o[0] == "ok" and o[1].get("acc") is False]
+    for i in bad_acc[:2]:
+        rep = describe(cases[i])
+        rep.update({"what": "after this program Sym::get_probabilities / get_polar_wavefunction disagree with the state, or "
+                            "Sym::measure(q, c) does not store the outcome in the paired classical bits in the session's mode",
+                    "implementation": short_obs(obs[i])})
+        run.violation(rep)
+    found += len(bad_acc)
     for i in order:
         fails = oracle(cases[i], obs[i])
         if fails:
